@@ -95,6 +95,30 @@ SCOPES = {
         ops=["alter", "delete", "create", "createsf", "verify", "diff", "nodh"], maxgens=3, maxops=5, keepsnap=False,
         mutable=[P("a"), P("d", "e", "c")],
     ),
+    # a chain of four nested histories (root > d > d/e > d/e/g): routing and references beyond grandchildren
+    "deep": dict(
+        fmts=["md5"], files=[P("a"), P("d", "b"), P("d", "e", "c"), P("d", "e", "g", "h")], dirs=[P("d"), P("d", "e"), P("d", "e", "g")],
+        init={P("a"): "c1", P("d"): "DIR", P("d", "b"): "c1", P("d", "e"): "DIR", P("d", "e", "c"): "c1", P("d", "e", "g"): "DIR", P("d", "e", "g", "h"): "c1"},
+        contents=["c1", "c2"], roots=[P(), P("d"), P("d", "e"), P("d", "e", "g")], fmtchoices=[["md5"]], pats=[()],
+        sf=[frozenset({P("d", "e", "g", "h")})],
+        ops=["alter", "create", "createsf", "verify", "diff"], maxgens=12, maxops=8, keepsnap=False,
+        mutable=[P("d", "e", "g", "h")],
+        init_creates=[P(), P("d", "e", "g"), P("d", "e"), P("d")],      # root sealed flat first, then the chain innermost first
+    ),
+    # long histories: more than ten generations in one history (flat and nested)
+    "long": dict(
+        fmts=["md5"], files=[P("a"), P("d", "b")], dirs=[P("d")],
+        init={P("a"): "c1", P("d"): "DIR", P("d", "b"): "c1"}, contents=["c1", "c2"],
+        roots=[P(), P("d")], fmtchoices=[["md5"]], pats=[()], sf=[frozenset({P("d", "b")}), frozenset({P("a")})],
+        ops=["alter", "create", "createsf"], maxgens=14, maxops=16, keepsnap=False, mutable=[P("a")],
+        init_creates=[P()] * 9 + [P("d")],
+    ),
+    # the smallest trees: one file and one empty directory, everything removable (sealed trees without files)
+    "tiny": dict(
+        fmts=["md5"], files=[P("a")], dirs=[P("e")], init={P("a"): "c1", P("e"): "DIR"}, contents=["c1", "c2"],
+        roots=[P()], fmtchoices=[["md5"]], pats=[()], sf=[],
+        ops=["alter", "delete", "mkdir", "create", "verify", "diff", "verifysf"], maxgens=2, maxops=5, keepsnap=False,
+    ),
     # ignore patterns: a base-name pattern, a glob class, applied to files and a directory
     "ign": dict(
         fmts=["md5"], files=[P("a"), P("x"), P("k_t"), P("d", "x"), P("d", "b"), P("g", "c"), P("d", "dsstore")], dirs=[P("d"), P("g")],
@@ -153,6 +177,7 @@ def render(sc, name, wd, invariants=None, props=(), maxgens=None, maxops=None):
         "c_PatChoices": set(tuple(p) for p in sc["pats"]),
         "c_SFChoices": set(sc["sf"]),
         "c_Ops": set(sc["ops"]),
+        "c_InitCreates": tuple(tuple(r) for r in sc.get("init_creates", [])),
     }
     with open(os.path.join(wd, mod + ".tla"), "w") as fh:
         fh.write("---- MODULE %s ----\nEXTENDS MhlHistoryMC\n" % mod)
